@@ -11,6 +11,7 @@ import (
 
 	"github.com/luthersystems/elps/lisp"
 	"github.com/luthersystems/elps/lisp/lisplib/internal/libutil"
+	"github.com/luthersystems/elps/parser/token"
 )
 
 // DefaultPackageName is the package name used by LoadPackage.
@@ -445,7 +446,20 @@ type validatorTag struct{}
 // evaluated, never bound into a scope, and never written after init.  A
 // per-runtime marker would break nothing but would also credential nothing:
 // its whole value is that every runtime recognizes the same pointer.
-var validatorMarker = lisp.Native(&validatorTag{}) //elpsvet:allow identity-only credential; read-only after init
+var validatorMarker = newValidatorMarker() //elpsvet:allow identity-only credential; read-only after init
+
+// newValidatorMarker gives the marker a location of its own.  A validator may
+// travel through a macro expansion, and the expander stamps the call site on
+// every node of an expansion that has no location yet: it walks a function's
+// cells too, so the one marker every runtime shares was WRITTEN by whichever
+// runtime first expanded such a macro, and showed that location to all the
+// others (a data race when two runtimes got there together).  A node that has
+// a location is left alone.
+func newValidatorMarker() *lisp.LVal {
+	m := lisp.Native(&validatorTag{})
+	m.SetSource(&token.Location{File: "<libschema validator>", Pos: 0})
+	return m
+}
 
 // A validator LFun's cells are [formals, docstring, marker].  The first two
 // come from lisp.FunInPackage; newValidator appends the third.  For a builtin
